@@ -13,7 +13,8 @@ use std::collections::{HashMap, VecDeque};
 #[cfg(not(similari_verif))]
 use std::sync::{Arc, RwLock};
 #[cfg(similari_verif)]
-use similari_verif_rt::sync::{Arc, RwLock};
+#[allow(unused_imports)]
+use similari_verif_rt::sync::*;
 
 use self::metric::SortMetric;
 
